@@ -61,12 +61,18 @@ def gen_program(rng, tier):
     levels = [2, 3, 4, 4, 5, 5, 5] if tier == "quick" else [2, 3, 4, 4, 5, 5, 6]
     lines, meta = [], {}
     nblade = 5 if tier == "quick" else 30
-    for k in range(nshapes + nblade):
+    noct = 3 if tier == "quick" else 16
+    for k in range(nshapes + nblade + noct):
         if k < nshapes:
             sh = gen_mesh.gen_shape(rng)
             lo, hi = sh["region"]
             L = rng.choice(levels)
             mf = gen_mesh.min_feature_for_levels(rng, min(h - l for l, h in zip(lo, hi)), L)
+        elif k >= nshapes + nblade:     # directed family: a sphere clipping single octants of coarse volume-tree cells
+            sh = gen_mesh.gen_octant_sphere(rng)
+            lo, hi = sh["region"]
+            mf = sh["min_feature"]
+            L = 5
         else:       # directed family: thin truncated blades aligned with a row of cells (bounded vertex placement)
             L = rng.choice([3, 4, 4, 5])
             sh = gen_mesh.gen_blade(rng, L)
@@ -91,14 +97,14 @@ def gen_program(rng, tier):
             errs = ["1e-8", rng.choice(["-1", "-1", "1e-2", "1e-3"])]
             for me in errs:
                 workers = rng.choice([1, 2, 4, 8, 16])
-                vol = 1 if rng.random() < 0.45 else 0
+                vol = 1 if (rng.random() < 0.45 or k >= nshapes + nblade) else 0
                 body.append("render %s %.9g %s %d %d 0" % (alg, mf, me, workers, vol))
         lines += hdr + body + ["end"]
         meta[cid] = {"header": hdr, "probes": [l for l in body if l.startswith("probe")],
                      "searches": [l for l in body if l.startswith("search")], "levels": L, "min_feature": mf,
                      "prims": [p["kind"] for p in sh["prims"]], "ops": sh["ops"], "region": (lo, hi),
                      # shapes with a thin wedge / blade are below the requested resolution near the thin end
-                     "family": "blade" if k >= nshapes or any(p["kind"][0] in ("wedge", "blade") for p in sh["prims"]) else "csg"}
+                     "family": "blade" if nshapes <= k < nshapes + nblade or any(p["kind"][0] in ("wedge", "blade") for p in sh["prims"]) else "csg"}
     return lines, meta
 
 
